@@ -305,6 +305,16 @@ fn exec(op: &Value) {
                     expect(ge.k, "exit", ge.uid, 0);
                     stack_pop_h(ge.k, ge.uid, ge.g.id().map_or(0, |i| i.into_u64()));
                 }
+                if op["xpanic"].as_bool().unwrap_or(false) && !ge.disabled {
+                    // fault: the collector's `exit` panics (caught). The span has been exited - once - and the handle
+                    // the guard owned is dropped by the unwinding: one close notification, nothing else
+                    expect(ge.k, "try_close", ge.uid, 0);
+                    crate::rec::PANIC_NEXT_EXIT.with(|c| c.set(true));
+                    let r = std::panic::catch_unwind(std::panic::AssertUnwindSafe(move || ge.g.exit()));
+                    crate::rec::PANIC_NEXT_EXIT.with(|c| c.set(false));
+                    drop(r);
+                    return;
+                }
                 let span = ge.g.exit();
                 put_slot(slot, SlotE { span, uid: ge.uid, k: ge.k, disabled: ge.disabled });
             }
@@ -687,7 +697,7 @@ impl Engine for SpanEngine {
                 18..=25 => json!({"t": t, "op": "clone", "slot": slot, "b": rng.below(NSLOTS as u64)}),
                 26..=35 => json!({"t": t, "op": "drop", "slot": slot}),
                 36..=44 => json!({"t": t, "op": "entered", "slot": slot, "g": rng.below(NGUARDS as u64)}),
-                45..=49 => json!({"t": t, "op": "exit_owned", "slot": slot, "g": rng.below(NGUARDS as u64)}),
+                45..=49 => json!({"t": t, "op": "exit_owned", "slot": slot, "g": rng.below(NGUARDS as u64), "xpanic": rng.chance(1, 6)}),
                 50..=54 => json!({"t": t, "op": "drop_guard", "g": rng.below(NGUARDS as u64)}),
                 55..=62 => json!({"t": t, "op": if rng.chance(1, 2) { "in_scope" } else { "enter_scope" }, "slot": slot, "body": gen_body(&mut rng, 0, false), "panic": rng.chance(1, 5)}),
                 63..=66 => json!({"t": t, "op": "record", "slot": slot}),
